@@ -143,6 +143,11 @@ def case_strategy(draw):
     eof = "eof-support" in on
     cfg = gen.GenConfig(max_depth=2, max_stmts=6, allow_yield=yld, allow_end=eof, n_strs=(0, 3), n_raws=(0, 1), n_enums=(0, 1), n_hooks=(0, 2),
                         n_fcodes=(0, 2), kinds={"yield": 2 if yld else 0, "finish": 2}, wide_bytes=0.3, tame_conditions=True)
+    if eof and not yld and draw(st.booleans()):
+        # programs that really use `end` (statement, case clause, handler) followed by all kinds of actions
+        from checks.c17 import eof_program
+        prog, _ = draw(eof_program(with_appendc=True))
+        return prog, argv, tuple(sorted(on))
     prog = draw(gen.program(cfg))
     return prog, argv, tuple(sorted(on))
 
